@@ -9,6 +9,7 @@ import (
 	"path/filepath"
 	"strings"
 	"testing"
+	"time"
 
 	"github.com/gokrazy/rsync/rsyncclient"
 	"github.com/gokrazy/rsync/rsyncd"
@@ -60,6 +61,7 @@ func newCanaryRing(scratch, rootName string) (*canaryRing, error) {
 	os.Symlink("../sibling_file", filepath.Join(cr.Root, "link_file"))
 	os.Symlink(cr.AbsDir, filepath.Join(cr.Root, "link_abs"))
 	os.Symlink("..", filepath.Join(cr.Root, "link_up"))
+	os.Symlink("../"+rootName+"_evil", filepath.Join(cr.Root, "link_prefix"))
 	return cr, nil
 }
 
@@ -106,11 +108,14 @@ type C05Entry struct {
 }
 
 type C05Scenario struct {
-	Side    string     `json:"side"` // client (real pulling client, hostile server) | module (real writable module, hostile pushing client)
+	Side    string     `json:"side"`          // client (real pulling client, hostile server) | module (real writable module, hostile pushing client)
 	Sub     string     `json:"sub,omitempty"` // module side: sub-directory argument of the upload
 	Opts    []string   `json:"opts"`
 	Entries []C05Entry `json:"entries"`
-	Tr      Transport  `json:"tr"`
+	// Unsolicited: the hostile sender also sends data for indices nobody
+	// requested (block references + the checksum of an outside file).
+	Unsolicited bool      `json:"unsolicited,omitempty"`
+	Tr          Transport `json:"tr"`
 }
 
 type c05 struct{}
@@ -129,6 +134,12 @@ var c05Names = []string{
 	"../dest_evil/file", "../%R_evil/file", "plain", "dir/plain", "dir",
 }
 
+// upload sub-directory arguments (module side): plain, through symlinks that
+// leave the module, dot-dot forms, and forms that resolve to a SIBLING whose
+// path has the module path as a string prefix (dest -> dest_evil)
+var c05Subs = []string{"", "", "sub/", "link_out/", "link_up/", "../", "../sibling_dir/", "link_abs/", "a/../../",
+	"../dest_evil/", "../dest_evil", "link_prefix/", "link_prefix", "sub/../../dest_evil/", "link_up/dest_evil/"}
+
 var c05Types = []string{"f", "d", "l", "fifo", "sock", "chr"}
 var c05OptSets = [][]string{
 	{"-r", "-D", "-l"}, {"-a"}, {"-r", "-l", "-p", "-t", "-o", "-g", "-D"}, {"-r", "-D", "-l", "--delete"}, {"-r"}, {"-r", "-c", "-I", "-D", "-l"},
@@ -139,6 +150,7 @@ var c05OptSets = [][]string{
 func C05MatrixSize() int { return len(c05Names) * len(c05Types) * len(c05OptSets) * 2 }
 
 func c05Directed(i int) *C05Scenario {
+	i0 := i
 	sc := &C05Scenario{Side: []string{"client", "module"}[i%2]}
 	i /= 2
 	sc.Opts = c05OptSets[i%len(c05OptSets)]
@@ -162,6 +174,11 @@ func c05Directed(i int) *C05Scenario {
 		sc.Entries = append(sc.Entries, C05Entry{Name: "evil", Type: "l", Link: "../sibling_dir", Perm: 0o777})
 	}
 	sc.Entries = append(sc.Entries, e, C05Entry{Name: "zz_benign", Type: "f", Perm: 0o644, Size: 10})
+	sc.Unsolicited = typ == "f" && (i0/3)%2 == 0
+	if sc.Side == "module" {
+		// the matrix index also walks through the sub-directory arguments
+		sc.Sub = c05Subs[(i0/7)%len(c05Subs)]
+	}
 	sc.Tr = Transport{CapCS: kernel.Unbounded, CapSC: kernel.Unbounded, Chunk: kernel.ChunkMax, Bias: kernel.BiasCanonical}
 	return sc
 }
@@ -190,7 +207,7 @@ func (c05) Generate(seed uint64, tier string, index int) any {
 	}
 	sc.Opts = opts
 	if sc.Side == "module" {
-		sc.Sub = []string{"", "", "sub/", "link_out/", "link_up/", "../", "../sibling_dir/", "link_abs/", "a/../../"}[g.R.Intn(9)]
+		sc.Sub = c05Subs[g.R.Intn(len(c05Subs))]
 	}
 	// one or two hostile entries per list (the receiver stops at the first
 	// entry it refuses, so more would mostly go untested), preceded by the
@@ -219,6 +236,7 @@ func (c05) Generate(seed uint64, tier string, index int) any {
 	for i := 0; i < g.R.Intn(3); i++ {
 		sc.Entries = append(sc.Entries, C05Entry{Name: fstree.Name("benign_" + g.NameComponent(true)), Type: "f", Perm: 0o644, Size: int64(g.R.Intn(500))})
 	}
+	sc.Unsolicited = g.R.Intn(3) == 0
 	sc.Tr = g.TransportFor(12, 64<<10)
 	if sc.Tr.CapSC != kernel.Unbounded && sc.Tr.CapSC < 4096 {
 		sc.Tr.CapSC = 4096
@@ -306,6 +324,41 @@ func (c05) Run(t *testing.T, scenario any, job *Job, res *Result) {
 			}
 		}
 	}
+	// a hostile sender may also push data for an index nobody requested: block
+	// references against whatever the receiver opens as the basis of that
+	// name, with the whole-file checksum of an outside file it knows
+	canaryFor := func(name string) []byte {
+		switch {
+		case strings.HasSuffix(name, "sibling_file") || strings.HasSuffix(name, "link_file"):
+			return cr.Secrets["sibling_file"]
+		case strings.HasSuffix(name, "/inner"):
+			return cr.Secrets["sibling_inner"]
+		case strings.HasSuffix(name, "/file") || strings.HasSuffix(name, "link_abs"):
+			return cr.Secrets["abs_file"]
+		}
+		return nil
+	}
+	unsolicited := func(sorted []refproto.Entry, seed int32) []refproto.Unsol {
+		var out []refproto.Unsol
+		for i, e := range sorted {
+			c := canaryFor(e.Name)
+			if !e.IsReg() || c == nil {
+				continue
+			}
+			const bl = 700
+			h, _ := refproto.Signature(c, bl, 16, seed)
+			var toks []refproto.Tok
+			for b := int32(0); b < h.Count; b++ {
+				toks = append(toks, refproto.Tok{Block: b})
+			}
+			out = append(out, refproto.Unsol{Idx: int32(i), Head: h, Toks: toks, Sum: refproto.FileSum(c, seed)})
+		}
+		return out
+	}
+	var unsol func([]refproto.Entry, int32) []refproto.Unsol
+	if sc.Unsolicited {
+		unsol = unsolicited
+	}
 	log := &lockedBuf{max: 1 << 18}
 	var out *RefResult
 	var sr *refproto.SendResult
@@ -329,7 +382,7 @@ func (c05) Run(t *testing.T, scenario any, job *Job, res *Result) {
 			},
 			Ref: func(w *refproto.Wire) error {
 				var err error
-				sr, err = refproto.Send(w, refproto.SendOpts{Server: true, Daemon: true, Seed: 31337, Entries: entries, Data: data, OptsFromArgs: true, Users: refproto.IDList{{ID: 12345, Name: "nobody"}}, Groups: refproto.IDList{{ID: 23456, Name: "nogroup"}}})
+				sr, err = refproto.Send(w, refproto.SendOpts{Server: true, Daemon: true, Seed: 31337, Entries: entries, Data: data, OptsFromArgs: true, Unsolicited: unsol, Users: refproto.IDList{{ID: 12345, Name: "nobody"}}, Groups: refproto.IDList{{ID: 23456, Name: "nogroup"}}})
 				if sr != nil {
 					checkReq(sr.Requests, sr.Sorted, sr.Seed)
 				}
@@ -356,7 +409,7 @@ func (c05) Run(t *testing.T, scenario any, job *Job, res *Result) {
 			},
 			Ref: func(w *refproto.Wire) error {
 				var err error
-				sr, err = refproto.Send(w, refproto.SendOpts{Daemon: true, Module: "mod", Args: args, List: lo, SendFilterList: del, Entries: entries, Data: data,
+				sr, err = refproto.Send(w, refproto.SendOpts{Daemon: true, Module: "mod", Args: args, List: lo, SendFilterList: del, Entries: entries, Data: data, Unsolicited: unsol,
 					Users: refproto.IDList{{ID: 12345, Name: "nobody"}}, Groups: refproto.IDList{{ID: 23456, Name: "nogroup"}}})
 				if sr != nil {
 					checkReq(sr.Requests, sr.Sorted, sr.Seed)
@@ -391,6 +444,26 @@ func (c05) Run(t *testing.T, scenario any, job *Job, res *Result) {
 	}
 	if readLeak != "" {
 		res.Violate("escape", "read-outside:"+sc.Side, desc()+"\n"+readLeak)
+		return
+	}
+	// outside content that was READ ends up inside the root
+	filepath.WalkDir(cr.Root, func(p string, d fs.DirEntry, err error) error {
+		if err != nil || !d.Type().IsRegular() {
+			return nil
+		}
+		b, rerr := os.ReadFile(p)
+		if rerr != nil {
+			return nil
+		}
+		for tag, secret := range cr.Secrets {
+			if bytes.Contains(b, secret[:40]) && res.Violation == nil {
+				rel, _ := filepath.Rel(cr.Root, p)
+				res.Violate("escape", "read-outside-into-root:"+sc.Side, fmt.Sprintf("%s\nthe content of the outside file %q was read and now sits inside the root as %q", desc(), tag, rel))
+			}
+		}
+		return nil
+	})
+	if res.Violation != nil {
 		return
 	}
 	if out.Panic != "" {
@@ -428,15 +501,19 @@ func classifyEscape(d string) string {
 // ---- C06 ------------------------------------------------------------------------------
 
 type C06Scenario struct {
-	Module   string    `json:"module"`  // module line
-	Path     string    `json:"path"`    // path argument line
-	Opts     []string  `json:"opts"`
-	FSModule bool      `json:"fs_module"`
+	Module   string   `json:"module"` // module line
+	Path     string   `json:"path"`   // path argument line
+	Opts     []string `json:"opts"`
+	FSModule bool     `json:"fs_module"`
 	// Swap: after the file list has been received and right before the file is
 	// requested, an external process replaces a regular file inside the module
 	// by a symlink to an outside file (time of check / time of use).
-	Swap bool      `json:"swap,omitempty"`
-	Tr   Transport `json:"tr"`
+	Swap bool `json:"swap,omitempty"`
+	// Cross: two modules of one daemon hold a file of the same relative path,
+	// size and mtime but different content; the other module is listed (with
+	// -c) first, then this one: checksums and data must be this module's.
+	Cross bool      `json:"cross,omitempty"`
+	Tr    Transport `json:"tr"`
 }
 
 type c06 struct{}
@@ -472,7 +549,16 @@ func (c06) Generate(seed uint64, tier string, index int) any {
 		}
 	}
 	sc.Opts = opts
-	if g.R.Intn(5) == 0 {
+	if g.R.Intn(8) == 0 {
+		sc.Cross = true
+		sc.Module = []string{"mod", "modx"}[g.R.Intn(2)]
+		sc.FSModule = false
+		sc.Path = sc.Module + "/"
+		sc.Opts = []string{"-r", "-c"}
+		if g.R.Bool() {
+			sc.Opts = append(sc.Opts, "-t")
+		}
+	} else if g.R.Intn(5) == 0 {
 		// time-of-check/time-of-use: a benign request whose file is swapped for a symlink
 		sc.Swap = true
 		sc.Path = sc.Module + []string{"/", "/inside_file", "/inside_dir/"}[g.R.Intn(3)]
@@ -504,6 +590,19 @@ func (c06) Run(t *testing.T, scenario any, job *Job, res *Result) {
 		os.MkdirAll(d, 0755)
 		os.WriteFile(filepath.Join(d, "other_module_file"), []byte("OTHER-MODULE "+filepath.Base(d)), 0644)
 	}
+	sharedA := []byte("SHARED-NAME content of module mod ......")
+	sharedB := []byte("SHARED-NAME content of module modx .....")
+	if sc.Cross {
+		for _, x := range []struct {
+			dir string
+			b   []byte
+		}{{cr.Root, sharedA}, {modx, sharedB}} {
+			p := filepath.Join(x.dir, "shared_name")
+			os.WriteFile(p, x.b, 0644)
+			mt := time.Unix(1_555_555_555, 0)
+			os.Chtimes(p, mt, mt)
+		}
+	}
 	path := strings.ReplaceAll(sc.Path, "%A", cr.AbsDir)
 	if strings.ContainsAny(path, "\n") {
 		res.Invalid = "newline in path argument"
@@ -525,6 +624,22 @@ func (c06) Run(t *testing.T, scenario any, job *Job, res *Result) {
 	lo, _, _, _, _ := refproto.ArgOpts(sc.Opts)
 	args := append([]string{"--server", "--sender"}, sc.Opts...)
 	args = append(args, ".", path)
+	if sc.Cross {
+		other := "modx"
+		if sc.Module == "modx" {
+			other = "mod"
+		}
+		pre := RunWithRef(t, &RefRun{Tr: sc.Tr, RefIsClient: true,
+			Real: func(ctx context.Context, end *kernel.End) error {
+				return srv.HandleDaemonConn(ctx, rsyncd.NewConnection(end, end, "192.0.2.77:7776"))
+			},
+			Ref: func(w *refproto.Wire) error {
+				refproto.Pull(w, refproto.PullOpts{Daemon: true, Module: other, Args: append(append([]string{"--server", "--sender"}, sc.Opts...), ".", other+"/"), List: lo, ServerIsSender: true, MaxData: 1 << 20,
+					Plan: func(int, *refproto.Entry, int32) (bool, []byte, int, int) { return true, nil, 0, 0 }})
+				return nil
+			}})
+		res.AddRef(pre)
+	}
 	var wire bytes.Buffer
 	var pr *refproto.PullResult
 	nswapped := 0
@@ -608,6 +723,25 @@ func (c06) Run(t *testing.T, scenario any, job *Job, res *Result) {
 		if len(pr.List.Entries) > 0 {
 			res.Probe("requests_answered_with_a_list", 1)
 		}
+	}
+	if sc.Cross && pr != nil && pr.List != nil {
+		own := sharedA
+		if sc.Module == "modx" {
+			own = sharedB
+		}
+		for _, e := range pr.List.Entries {
+			if e.Name == "shared_name" && lo.Checksum && e.Sum != refproto.PlainMD4(own) {
+				res.Violate("disclosure", "other-module-checksum", fmt.Sprintf("%s: the checksum listed for %q is not that of this module's file (another module of the daemon holds a file of the same path, size and mtime and was listed first)", desc, e.Name))
+				return
+			}
+		}
+		for _, fr := range pr.Files {
+			if fr.Entry.Name == "shared_name" && !bytes.Equal(fr.Data, own) {
+				res.Violate("disclosure", "other-module-data", fmt.Sprintf("%s: data served for %q is not this module's file", desc, fr.Entry.Name))
+				return
+			}
+		}
+		res.Probe("cross_module_runs", 1)
 	}
 	if pr != nil {
 		res.Probe("stage_"+pr.Stage, 1)
